@@ -407,7 +407,9 @@ def run(ctx):
                 if core.k == "bin" and core.a in ("Add", "AddWithOverflow") and any(isinstance(c.get("v"), int) and c["v"] >= 1 for c in core.consts()) and any(x.k == "var" and x.a.get("local") == i for x in core.walk()):
                     incs.append(bb)
         heads = _loop_heads_testing(f, i)
-        ctx.ob("R8", "loops-found:%s" % prim.short(path), len(heads) >= loops, "%s: %d loops guarded by the scan index found (expected >= %d)" % (path, len(heads), loops), fn=f, nontrivial=False)
+        # a scan written as an iterator pipeline (`args[k..].iter().take_while(..).collect()`) ends with the slice
+        pipes = [b_ for b_, t_ in f.calls() if t_.j.get("callee_name") == "collect" and any(cn.a["name"] in ("iter", "into_iter") and any(x.k == "arg" for x in cn.walk()) for cn in prim.origin_of_operand(f, t_.args[0]).call_nodes())]
+        ctx.ob("R8", "loops-found:%s" % prim.short(path), len(heads) + len(pipes) >= loops, "%s: %d loops guarded by the scan index found (expected >= %d)" % (path, len(heads), loops), fn=f, nontrivial=False)
         for h in heads:
             back = [p_ for p_ in f.preds()[h] if h in f.reach_from([p_]) and f.dominates(h, p_)]
             ok = bool(back) and all(prim.must_pass(f, s, [h], incs) for s in f.succs(h) if any(bk in f.reach_from([s]) for bk in back))
@@ -489,6 +491,8 @@ def _loop_heads_testing(f, i):
                 pr = prim.switch_pred(f, cur).strip()
                 if pr.k == "bin" and pr.a in ("Lt", "Le", "Gt", "Ge", "Ne") and any(x.k == "var" and x.a.get("local") == i for x in pr.walk()):
                     heads.append(b)
+                elif pr.k == "discr" and any(cn.a["name"] == "get" and any(x.k == "var" and x.a.get("local") == i for x in cn.walk()) for cn in pr.call_nodes()):
+                    heads.append(b)          # `while let Some(&arg) = args.get(i)`
                 break
             nx = f.succs(cur)
             if len(nx) != 1:
